@@ -62,6 +62,16 @@ M = {
  "c06_rom_writable": ("rustzx-core/src/zx/memory.rs", "        if let Page::Ram(page) = page {\n            self.ram[(page as usize) * PAGE_SIZE + offset] = value;\n        }", "        match page {\n            Page::Ram(page) => self.ram[(page as usize) * PAGE_SIZE + offset] = value,\n            Page::Rom(page) => self.rom[(page as usize) * PAGE_SIZE + offset] = value,\n        }"),
  "c06_latch_mask": ("rustzx-core/src/zx/controller.rs", "} else if (port & 0x8002 == 0) && (self.machine == ZXMachine::Sinclair128K) {", "} else if (port & 0x8000 == 0) && (self.machine == ZXMachine::Sinclair128K) {"),
  "c06_lock_before_apply": ("rustzx-core/src/zx/controller.rs", "        if !self.paging_enabled {\n            return;\n        }\n        self.current_port_7ffd = val;", "        if !self.paging_enabled || val & 0x20 != 0 && val & 0x07 == 0x06 {\n            self.paging_enabled = false;\n            return;\n        }\n        self.current_port_7ffd = val;"),
+ # ---- C07
+ "c07_ay_read_mask": ("rustzx-core/src/zx/controller.rs", "        } else if port & 0xC002 == 0xC000 {\n            self.read_ay_port()", "        } else if port & 0xC000 == 0xC000 {\n            self.read_ay_port()"),
+ "c07_ay_write_mask": ("rustzx-core/src/zx/controller.rs", "        } else if port & 0xC002 == 0x8000 {\n            self.write_ay_port(data);", "        } else if port & 0xC000 == 0x8000 {\n            self.write_ay_port(data);"),
+ "c07_latch_mask": ("rustzx-core/src/zx/controller.rs", "} else if (port & 0x8002 == 0) && (self.machine == ZXMachine::Sinclair128K) {", "} else if (port & 0x8000 == 0) && (self.machine == ZXMachine::Sinclair128K) {"),
+ "c07_kempston_mask": ("rustzx-core/src/zx/controller.rs", "self.kempston.is_some() && (port & 0x00E0 == 0)", "self.kempston.is_some() && (port & 0x0020 == 0)"),
+ "c07_row_polarity": ("rustzx-core/src/zx/controller.rs", "if ((h >> n) & 0x01) == 0 {", "if ((h >> n) & 0x01) != 0 {"),
+ "c07_ay_before_ext": ("rustzx-core/src/zx/controller.rs", "        let output = if let Some(value) = io_extender_value {\n            value\n        } else if port & 0x0001 == 0 {", "        let output = if port & 0xC002 == 0xC000 {\n            self.read_ay_port()\n        } else if let Some(value) = io_extender_value {\n            value\n        } else if port & 0x0001 == 0 {"),
+ "c07_floating_in_border": ("rustzx-core/src/zx/controller.rs", "        if row < CANVAS_HEIGHT\n            && clocks < specs.clocks_screen_row - CLOCKS_PER_COL", "        if row < CANVAS_HEIGHT + 8\n            && clocks < specs.clocks_screen_row - CLOCKS_PER_COL"),
+ "c07_mouse_ignores_a5": ("rustzx-core/src/zx/controller.rs", "self.mouse.is_some() && (port & 0x0121 == 0x0001)", "self.mouse.is_some() && (port & 0x0101 == 0x0001)"),
+ "c07_ula_odd_too": ("rustzx-core/src/zx/controller.rs", "        } else if port & 0x0001 == 0 {\n            self.set_border_color", "        } else if port & 0x0001 == 0 || port & 0x00FF == 0x00FF {\n            self.set_border_color"),
 }
 
 def main():
